@@ -329,6 +329,30 @@ func cmdFuzz(args []string) error {
 		}
 		flush()
 	}
+	// every HAVING clause of up to four tokens over the tokens its grammar is made of: the expression builder sees
+	// token lists no generator of meaningful expressions writes (a lone binding in parentheses, operators without
+	// operands, ...)
+	{
+		toks := []string{"(", ")", "?s", "=", "not", "and", `"1"^^type:int64`, "<"}
+		var rec func(prefix []string, depth int)
+		rec = func(prefix []string, depth int) {
+			if len(prefix) > 0 {
+				f.one("having-tokens", "select ?s from ?a where {?s ?p ?o} having "+strings.Join(prefix, " ")+";")
+			}
+			if depth == 4 {
+				return
+			}
+			for _, t := range toks {
+				rec(append(append([]string{}, prefix...), t), depth+1)
+			}
+		}
+		rec(nil, 0)
+		for _, e := range []string{"((?s = ?o) and ?o)", "(?s = ?o) and (?o)", "not (not (?s))", "((?s))", "(?s = ?o) or not ?o", "construct"} {
+			f.one("having-tokens", "select ?s from ?a where {?s ?p ?o} having "+e+";")
+			f.one("having-tokens", "construct {?s \"n\"@[] ?o} into ?b from ?a where {?s ?p ?o} having "+e+";")
+		}
+		flush()
+	}
 	// C. mutations
 	for i := 0; i < 3**n; i++ {
 		s := valid[r.intn(len(valid))]
